@@ -249,6 +249,9 @@ def run(R):
             # stream", a cached placeholder) is a name that does not resolve
             if len(en) == 1:
                 oks = [(bb_, i_) for bb_, i_, p_, a_, ops_ in mirlib.aggregates(b, 'result::Result', 'Ok') if flows_to_return(b, p_['l'])]
+                if not oks:
+                    # the Ok is built by a (spliced) helper and handed on through map_err / `?`: every Ok built here counts
+                    oks = [(bb_, i_) for bb_, i_, p_, a_, ops_ in mirlib.aggregates(b, 'result::Result', 'Ok')]
                 bad_ok = [(bb_, i_) for bb_, i_ in oks if not b.dominates(en[0][0], bb_)]
                 R.check(bool(oks) and not bad_ok, 'C19.R3', '%s:every-Ok-is-the-encoding' % fn, site(b, *(bad_ok[0] if bad_ok else oks[0] if oks else (None,))),
                         'Ok(..) answers of %s: %d, of which %d are not behind the encoder' % (fn, len(oks), len(bad_ok)))
